@@ -592,6 +592,12 @@ inductive IterOut
   | next (s : St)      -- go on with the next iteration
   deriving Inhabited
 
+/-- The state carried by an outcome. -/
+def IterOut.st : IterOut → St
+  | .abort s => s
+  | .stop s => s
+  | .next s => s
+
 /-- Decide from the result of the body (both loop kinds): break / continue sentinels are not errors;
     any other error aborts; a pending depth (set by break / lazybreak or left over by a child loop) ends
     this loop and is decremented — this loop is one of the loops to end. -/
